@@ -205,19 +205,19 @@ def run_script(run, case):
         return True
     excuse = set()
     notes = []
-    if 'retries-zero-treated-as-one' in regs and attempts == 2:
+    if 'retries-zero-treated-as-one' in regs and attempts == 2 and 'too-many-transmissions' in kinds:
         excuse.add('too-many-transmissions')
         notes.append(('retries-zero-treated-as-one', 'retries=0 is treated as retries=1 (kwargs.get("retries") or 1): two transmissions'))
-    if 'retry-on-empty-needs-retry-on-invalid' in regs and attempts == 1:
+    if 'retry-on-empty-needs-retry-on-invalid' in regs and attempts == 1 and 'valid-reply-ignored' in kinds:
         excuse.add('valid-reply-ignored')
         notes.append(('retry-on-empty-needs-retry-on-invalid', 'retry_on_empty alone never retries: error after one transmission'))
-    if 'ascii-client-raises-on-nonhex-reply' in regs:
+    if 'ascii-client-raises-on-nonhex-reply' in regs and {'raised:ValueError', 'raised:Error'} & set(kinds):
         excuse |= {'raised:ValueError', 'raised:Error'}
         notes.append(('ascii-client-raises-on-nonhex-reply', 'ASCII client lets ValueError / binascii.Error escape execute() on a non-hex reply'))
-    if 'tcp-reply-tid-unchecked' in regs:
+    if 'tcp-reply-tid-unchecked' in regs and 'foreign' in kinds:
         excuse.add('foreign')
         notes.append(('tcp-reply-tid-unchecked', 'TCP client returns a reply carrying another transaction id'))
-    if 'udp-retry-reads-header-first' in regs and attempts >= 2:
+    if 'udp-retry-reads-header-first' in regs and attempts >= 2 and 'valid-reply-ignored' in kinds:
         excuse.add('valid-reply-ignored')
         notes.append(('udp-retry-reads-header-first', 'on a retry the UDP client reads 8 bytes of the datagram, loses the rest and times out'))
     if 'socket-short-header' in regs:
@@ -228,10 +228,10 @@ def run_script(run, case):
     if 'socket-short-header' in regs and 'not-a-result' in kinds and 'ExceptionResponse' in kinds['not-a-result']:
         excuse.add('not-a-result')
         notes.append(('socket-short-header', 'a datagram shorter than an MBAP header whose first byte is >= 0x81 is decoded as an ExceptionResponse and returned'))
-    if 'tcp-peer-close-not-detected' in regs:
+    if 'tcp-peer-close-not-detected' in regs and 'followup-on-dead-socket' in kinds:
         excuse.add('followup-on-dead-socket')
         notes.append(('tcp-peer-close-not-detected', 'TCP client ignores end-of-stream: it keeps the dead socket and the next transaction fails'))
-    if 'tcp-unread-reply-bytes-poison-next-transaction' in regs:
+    if 'tcp-unread-reply-bytes-poison-next-transaction' in regs and 'followup-poisoned' in kinds:
         excuse.add('followup-poisoned')
         notes.append(('tcp-unread-reply-bytes-poison-next-transaction', 'unread bytes of an earlier reply break the next transaction'))
     left = set(kinds) - excuse
